@@ -38,14 +38,11 @@ func (c *Ctx) opsFor(m modeling.Mesh, all []string) string {
 		case "crop":
 			ok = m.Topology() == modeling.PointTopology
 		case "filter":
-			ok = filterApplicable(m)
+			ok = m.Topology() == modeling.PointTopology
 		case "topointcloud":
 			ok = m.Topology() != modeling.PointTopology || c.Rng.Intn(4) == 0
 		}
 		if ok || c.Rng.Intn(10) == 0 {
-			if name == "filter" && !filterApplicable(m) {
-				continue
-			}
 			return name
 		}
 	}
